@@ -2,10 +2,11 @@
 # C20: bmr/wire.go draws label randomness from crypto/rand directly; route it through the seedable shim.
 set -e
 WORK="$1"; HERE="$(cd "$(dirname "$0")" && pwd)"; . "$HERE/lib.sh"
+REPO="${VERIF_REPO:-/repo}"
 overlay_begin "$WORK"
-replace_import /repo/bmr/wire.go "$WORK/bmr_wire.go" "crypto/rand" 'rand "github.com/markkurossi/mpc/zverif/vrand"'
-overlay_add /repo/bmr/wire.go "$WORK/bmr_wire.go"
+replace_import $REPO/bmr/wire.go "$WORK/bmr_wire.go" "crypto/rand" 'rand "github.com/markkurossi/mpc/zverif/vrand"'
+overlay_add $REPO/bmr/wire.go "$WORK/bmr_wire.go"
 cp "$HERE/../shim/vrand/vrand.go" "$WORK/vrand.go"
-overlay_add /repo/zverif/vrand/vrand.go "$WORK/vrand.go"
+overlay_add $REPO/zverif/vrand/vrand.go "$WORK/vrand.go"
 overlay_end
 echo "-overlay $WORK/overlay.json"
